@@ -13,10 +13,12 @@ import (
 	"strings"
 	"testing"
 
+	"github.com/btcsuite/btcd/btcec/v2"
 	"github.com/btcsuite/btcd/btcec/v2/schnorr/musig2"
 	"github.com/btcsuite/btcd/txscript/v2"
 	"github.com/btcsuite/btcd/wire/v2"
 	"github.com/lightningnetwork/lnd/channeldb"
+	"github.com/lightningnetwork/lnd/input"
 	"github.com/lightningnetwork/lnd/internal/verifkit"
 	"github.com/lightningnetwork/lnd/lnwallet/chainfee"
 	"github.com/lightningnetwork/lnd/lnwire"
@@ -132,6 +134,16 @@ type vLine struct {
 	TxEq  int               `json:"txeq"`
 	SigOk map[string]int    `json:"sigok"`
 	RelH  int64             `json:"relh"`
+	// commitment points sent, as indexes into the sender's own derivation
+	// chain (-1: none sent with this step, -2: sent but not on the chain)
+	NPH int64 `json:"nph"` // revoke_and_ack.NextRevocationKey
+	LUP int64 `json:"lup"` // channel_reestablish.LocalUnrevokedCommitPoint
+	CRP int64 `json:"crp"` // channel_ready re-sent from the database handle (SecondCommitmentPoint)
+	NRK int64 `json:"nrk"` // channel_ready re-sent by the link (NextRevocationKey)
+	// RSK: after a revocation was received, how many of the peer's secrets
+	// 0..k-1 a STALE handle on the channel (what the chain watcher holds)
+	// reproduces exactly through RemoteRevocationStore (-1: not evaluated)
+	RSK int64 `json:"rsk"`
 	NTx   map[string]int64  `json:"ntx,omitempty"`
 	Type  string            `json:"type,omitempty"`
 	Opener string           `json:"opener,omitempty"`
@@ -389,6 +401,44 @@ func vRelHeight(lc *LightningChannel, rev *lnwire.RevokeAndAck) int64 {
 	return -1
 }
 
+// vPointIndex: which element of lc's own per-commitment chain the point is.
+func vPointIndex(lc *LightningChannel, pt *btcec.PublicKey) int64 {
+	if pt == nil {
+		return -1
+	}
+	top := lc.commitChains.Local.tip().height + 3
+	for h := uint64(0); h <= top; h++ {
+		s, err := lc.channelState.RevocationProducer.AtIndex(h)
+		if err == nil && input.ComputeCommitmentPoint(s[:]).IsEqual(pt) {
+			return int64(h)
+		}
+	}
+	return -2
+}
+
+// vStaleSecrets asks a handle nobody updates for the remote revocation store
+// (as the chain watcher does before it looks for a breach) and counts the
+// leading secrets of the peer's chain it reproduces exactly.
+func vStaleSecrets(stale *channeldb.OpenChannel, peer *LightningChannel) int64 {
+	store, err := stale.RemoteRevocationStore()
+	if err != nil {
+		return -2
+	}
+	n := int64(0)
+	for h := uint64(0); h <= peer.commitChains.Local.tip().height+1; h++ {
+		want, err := peer.channelState.RevocationProducer.AtIndex(h)
+		if err != nil {
+			break
+		}
+		got, err := store.LookUp(h)
+		if err != nil || *got != *want {
+			break
+		}
+		n++
+	}
+	return n
+}
+
 func vIsConstraintErr(err error) bool {
 	if err == nil {
 		return false
@@ -473,6 +523,7 @@ func TestVerifChannelExec(t *testing.T) {
 			peer := sides[other[e.P]]
 			var err error
 			txeq, relh := -1, int64(-1)
+			nph, lup, crp, nrk, rsk := int64(-1), int64(-1), int64(-1), int64(-1), int64(-1)
 			pop := func() vMsg {
 				if len(peer.out) == 0 {
 					t.Fatalf("%s: %v: peer queue empty", f, e)
@@ -575,9 +626,13 @@ func TestVerifChannelExec(t *testing.T) {
 				if err == nil {
 					me.out = append(me.out, vMsg{kind: "rev", rev: rev})
 					relh = vRelHeight(me.lc, rev)
+					nph = vPointIndex(me.lc, rev.NextRevocationKey)
 				}
 			case "RecvRev":
 				_, _, err = me.lc.ReceiveRevocation(pop().rev)
+				if err == nil {
+					rsk = vStaleSecrets(me.stale, peer.lc)
+				}
 			case "UpdateFee":
 				err = me.lc.UpdateFee(chainfee.SatPerKWeight(e.X))
 				if err == nil {
@@ -606,6 +661,14 @@ func TestVerifChannelExec(t *testing.T) {
 				var m *lnwire.ChannelReestablish
 				m, err = me.lc.channelState.ChanSyncMsg()
 				if err == nil {
+					lup = vPointIndex(me.lc, m.LocalUnrevokedCommitPoint)
+					// the two places a channel_ready is re-sent from on reconnect
+					if pt, perr := me.lc.channelState.SecondCommitmentPoint(); perr == nil {
+						crp = vPointIndex(me.lc, pt)
+					}
+					if pt, perr := me.lc.NextRevocationKey(); perr == nil {
+						nrk = vPointIndex(me.lc, pt)
+					}
 					if me.lc.channelState.ChanType.IsTaproot() {
 						// what the peer package does with the nonce it has
 						// just put into channel_reestablish
@@ -647,6 +710,7 @@ func TestVerifChannelExec(t *testing.T) {
 					case *lnwire.RevokeAndAck:
 						me.out = append(me.out, vMsg{kind: "rev", rev: mm})
 						relh = vRelHeight(me.lc, mm)
+						nph = vPointIndex(me.lc, mm.NextRevocationKey)
 					default:
 						me.out = append(me.out, vMsg{kind: fmt.Sprintf("%T", x)})
 					}
@@ -656,7 +720,7 @@ func TestVerifChannelExec(t *testing.T) {
 			}
 
 			tl := vLine{vEv: e, St: map[string]vParty{}, Sh: map[string]vParty{}, SigOk: map[string]int{},
-				TxEq: txeq, RelH: relh}
+				TxEq: txeq, RelH: relh, NPH: nph, LUP: lup, CRP: crp, NRK: nrk, RSK: rsk}
 			tl.A = name
 			tl.NTx = map[string]int64{}
 			for n, s := range sides {
